@@ -51,23 +51,29 @@ type c05Sort struct {
 	Text string
 	Keys []sortKey
 	Head int
+	// FilterB: the search clause in front of the sort is b=<FilterB> instead of * (with a sort index the searcher then
+	// intersects the matched records with the sort index lines)
+	FilterB string
 }
 
 var c05Sorts = []c05Sort{
-	{"sort a", []sortKey{{"a", false, "auto"}}, 0},
-	{"sort -a", []sortKey{{"a", true, "auto"}}, 0},
-	{"sort num(a)", []sortKey{{"a", false, "num"}}, 0},
-	{"sort -num(a)", []sortKey{{"a", true, "num"}}, 0},
-	{"sort str(a)", []sortKey{{"a", false, "str"}}, 0},
-	{"sort b, -a", []sortKey{{"b", false, "auto"}, {"a", true, "auto"}}, 0},
-	{"sort -b, a", []sortKey{{"b", true, "auto"}, {"a", false, "auto"}}, 0},
-	{"sort -a | head 2", []sortKey{{"a", true, "auto"}}, 2},
-	{"sort a | head 3", []sortKey{{"a", false, "auto"}}, 3},
+	{"sort a", []sortKey{{"a", false, "auto"}}, 0, ""},
+	{"sort -a", []sortKey{{"a", true, "auto"}}, 0, ""},
+	{"sort num(a)", []sortKey{{"a", false, "num"}}, 0, ""},
+	{"sort -num(a)", []sortKey{{"a", true, "num"}}, 0, ""},
+	{"sort str(a)", []sortKey{{"a", false, "str"}}, 0, ""},
+	{"sort b, -a", []sortKey{{"b", false, "auto"}, {"a", true, "auto"}}, 0, ""},
+	{"sort -b, a", []sortKey{{"b", true, "auto"}, {"a", false, "auto"}}, 0, ""},
+	{"sort -a | head 2", []sortKey{{"a", true, "auto"}}, 2, ""},
+	{"sort a | head 3", []sortKey{{"a", false, "auto"}}, 3, ""},
 	// limits inside the sort command; with two keys the cut may fall inside a group of equal first keys
-	{"sort 2 b, -a", []sortKey{{"b", false, "auto"}, {"a", true, "auto"}}, 2},
-	{"sort 3 b, a", []sortKey{{"b", false, "auto"}, {"a", false, "auto"}}, 3},
-	{"sort 3 -b, a", []sortKey{{"b", true, "auto"}, {"a", false, "auto"}}, 3},
-	{"sort 1 a", []sortKey{{"a", false, "auto"}}, 1},
+	{"sort 2 b, -a", []sortKey{{"b", false, "auto"}, {"a", true, "auto"}}, 2, ""},
+	{"sort 3 b, a", []sortKey{{"b", false, "auto"}, {"a", false, "auto"}}, 3, ""},
+	{"sort 3 -b, a", []sortKey{{"b", true, "auto"}, {"a", false, "auto"}}, 3, ""},
+	{"sort 1 a", []sortKey{{"a", false, "auto"}}, 1, ""},
+	// a filter in front of the sort
+	{"sort -a", []sortKey{{"a", true, "auto"}}, 0, "1"}, {"sort a", []sortKey{{"a", false, "auto"}}, 0, "2"},
+	{"sort b, -a", []sortKey{{"b", false, "auto"}, {"a", true, "auto"}}, 0, "1"}, {"sort 2 a", []sortKey{{"a", false, "auto"}}, 2, "1"},
 }
 
 // cmpKey compares two model values under one key. ok=false: the pair's relative order is not fixed
@@ -324,7 +330,11 @@ func c05Run(w *kernel.Worker, j *c05Job, rep *kernel.Report) (*Fail, error) {
 	// sort part
 	var qs []Q
 	for _, s := range c05Sorts {
-		qs = append(qs, mk("* | "+s.Text, 100, 0))
+		if s.FilterB != "" {
+			qs = append(qs, mk("b="+s.FilterB+" | "+s.Text, 100, 0))
+		} else {
+			qs = append(qs, mk("* | "+s.Text, 100, 0))
+		}
 	}
 	// paging under sort a: pages of 2
 	pageStart := len(qs)
@@ -356,14 +366,25 @@ func c05Run(w *kernel.Worker, j *c05Job, rep *kernel.Report) (*Fail, error) {
 			continue
 		}
 		got := ids(r)
-		want := n
-		if s.Head > 0 && s.Head < n {
+		pop := model // the events the search clause selects
+		if s.FilterB != "" {
+			what += "_after_filter"
+			fb, _ := strconv.ParseFloat(s.FilterB, 64)
+			pop = map[string]*MEvent{}
+			for id, m := range model {
+				if vs, ok := m.Cols["b"]; ok && vs[0].IsNum() && vs[0].Float() == fb {
+					pop[id] = m
+				}
+			}
+		}
+		want := len(pop)
+		if s.Head > 0 && s.Head < want {
 			want = s.Head
 		}
 		seen := map[string]bool{}
 		bad := false
 		for _, id := range got {
-			if _, ok := model[id]; !ok || seen[id] {
+			if _, ok := pop[id]; !ok || seen[id] {
 				bad = true
 			}
 			seen[id] = true
@@ -377,7 +398,7 @@ func c05Run(w *kernel.Worker, j *c05Job, rep *kernel.Report) (*Fail, error) {
 		}
 		if s.Head > 0 {
 			// limit = prefix of the order: no omitted event may sort strictly before a returned one
-			for id, m := range model {
+			for id, m := range pop {
 				if seen[id] {
 					continue
 				}
@@ -451,7 +472,7 @@ func C05() int {
 	rep := kernel.NewReport("C05", "model_checking")
 	rep.Rule = "time part: all 3^4 assignments of timestamps {T0,T0+1,T0+2} to 4 events (ties, out-of-order arrival) × layouts × GOMAXPROCS {1,2}; " +
 		"queries * with size 1,2,3,10, head 1..3, and paging with page sizes 1,2,3 over the whole result. sort part: value sets (ints, floats closer " +
-		"than 1e-4, strings, sparse, numbers+text, ties) × layouts × 13 sort specifications (auto/num/str, asc/desc, two keys, sort|head, limits inside sort with one and two keys) " +
+		"than 1e-4, strings, sparse, numbers+text, ties) × layouts × 17 sort specifications (auto/num/str, asc/desc, two keys, sort|head, limits inside sort with one and two keys, a filter b=<value> in front of the sort) " +
 		"× sort index configured for the index {none, [b], [a b]} (rotated segments then carry sort index files and sorts on those columns are served from them) + paging under sort. " +
 		"Oracle: ordermodel on every pair of results whose relative order the requested keys determine. paging processors: head(from+size) → scroller(from) over tables of ≤ n rows × " +
 		"every composition into batches × every (from, size): page == rows[from:from+size]. non-trivial = time case with ties or " +
